@@ -102,10 +102,10 @@ func (f fails) add(key, format string, a ...interface{}) {
 
 var oracleKeys = map[string][]string{
 	"docx": {"body-order", "table-after-multipara-table", "inline-order", "hyperlink-text-lost", "ins-text-lost", "sdt-text-lost",
-		"text-lost", "list-item-lost", "heading-level", "style-chain-heading-level", "list-nesting", "grid-cell", "merged-cell", "header-leak",
+		"text-lost", "list-item-lost", "heading-level", "style-chain-heading-level", "direct-outline-level", "list-nesting", "grid-cell", "merged-cell", "header-leak",
 		"parsed-grid-shape", "parsed-grid-span", "parsed-grid-continuation"},
 	"odt": {"body-order", "span-text-order", "inline-element-lost", "link-text-lost", "nested-span-text-lost", "text-lost", "list-item-lost",
-		"heading-level", "style-chain-heading-level", "list-nesting", "grid-cell", "merged-cell", "header-leak",
+		"heading-level", "style-chain-heading-level", "direct-outline-level", "list-nesting", "grid-cell", "merged-cell", "header-leak",
 		"parsed-grid-shape", "parsed-grid-span", "parsed-grid-continuation"},
 }
 
@@ -116,7 +116,41 @@ func headingKey(p *lpara) string {
 	if p.Via == "family" {
 		return "style-chain-heading-level"
 	}
+	if p.Via == "outline" && p.Plain != "" {
+		return "direct-outline-level"
+	}
 	return "heading-level"
+}
+
+// outlineStyled lists the body styles (p.Via values) in which the document has a
+// heading made by a direct outline level, with the first such block. The outline level
+// is direct formatting of that one paragraph: every plain paragraph written in the same
+// style - before it or after it - is a plain paragraph all the same, and fails under the
+// key direct-outline-level if it is presented as a heading.
+func (d *ldoc) outlineStyled() map[string]int {
+	out := map[string]int{}
+	for bi, bl := range d.Blocks {
+		if p := bl.P; p != nil && p.Kind == "h" && p.Via == "outline" && p.Plain != "" {
+			if _, seen := out[p.Plain]; !seen {
+				out[p.Plain] = bi
+			}
+		}
+	}
+	return out
+}
+
+// plainKey: the key under which a plain paragraph presented as a heading fails, and a
+// note on the heading that shares its style.
+func plainKey(p *lpara, bi int, shared map[string]int) (string, string) {
+	hb, ok := shared[p.Via]
+	if !ok || p.Via == "" {
+		return "heading-level", ""
+	}
+	where := "later"
+	if hb < bi {
+		where = "earlier"
+	}
+	return "direct-outline-level", fmt.Sprintf("; block %d, %s in the document, is a heading by a direct outline level and is written in the same style - the outline level belongs to that paragraph only", hb, where)
 }
 
 // chainNote describes the definition chain of a family style for the failure detail.
@@ -195,6 +229,7 @@ func evaluate(d *ldoc, out outputs) fails {
 			}
 		}
 	}
+	shared := d.outlineStyled()
 	entries := flatten(out.Doc)
 	find := func(tok string) int {
 		for i, e := range entries {
@@ -272,7 +307,8 @@ func evaluate(d *ldoc, out outputs) fails {
 			}
 		case "p":
 			if p.Via != "bigbold" && e.Kind != "p" {
-				f.add("heading-level", "Document(): block %d (plain paragraph, style %q) is %s level %d", bi, p.Style, e.Kind, e.Level)
+				key, note := plainKey(p, bi, shared)
+				f.add(key, "Document(): block %d (plain paragraph, style %q%s) is %s level %d%s", bi, p.Style, p.directNote(), e.Kind, e.Level, note)
 			}
 		case "li":
 			if e.Kind != "li" || e.Level != p.Level && !p.LevelUndef {
@@ -378,7 +414,8 @@ func evaluate(d *ldoc, out outputs) fails {
 					}
 				case "p":
 					if p.Via != "bigbold" && strings.HasPrefix(lineOf(o.s, toks[0].Tok), "#") {
-						f.add("heading-level", "%s: block %d (plain paragraph) rendered as heading", o.name, bi)
+						key, note := plainKey(p, bi, shared)
+						f.add(key, "%s: block %d (plain paragraph, style %q%s) rendered as heading line %q%s", o.name, bi, p.Style, p.directNote(), lineOf(o.s, toks[0].Tok), note)
 					}
 				}
 			} else if p.Kind == "li" && !p.LevelUndef {
@@ -446,6 +483,18 @@ func (d *ldoc) nestNote(bi int) string {
 		}
 	}
 	return fmt.Sprintf("; no shallower item before it in the list: it sits below %d list item(s) without a paragraph of their own", p.Level)
+}
+
+// directNote says which direct formatting a plain paragraph carries in its own properties.
+func (p *lpara) directNote() string {
+	s := ""
+	if p.Jc != "" {
+		s += ", direct w:jc=" + p.Jc
+	}
+	if p.Out9 {
+		s += ", direct w:outlineLvl=9 (body text)"
+	}
+	return s
 }
 
 // levelNote says how the level of a list item was written when not the plain way.
